@@ -9,6 +9,9 @@
 // read back by the independent decoder ref/chatwire. A sentinel command typed after the case's
 // command marks quiescence (it is forwarded behind it through the ordered chat queue).
 //
+// A second, end-to-end layer (e2e_test.go) types the commands as real client packets through a
+// live proxy and judges them with the same oracle.
+//
 // Expected outcome = pure function of (final line = the event's rewrite or the original,
 // registered?, requirements, event result), computed by a small reference walker over the
 // generated tree (no Gate/brigadier code):
@@ -241,6 +244,12 @@ func (t *tree) genLine(rng *rand.Rand, uniq int) string {
 
 func (t *tree) build(onExec func(n *node, c *command.Context) error) *command.Manager {
 	var mgr command.Manager
+	t.buildInto(&mgr, onExec)
+	return &mgr
+}
+
+// buildInto registers the tree's root literals on mgr (the e2e layer passes Proxy.Command()).
+func (t *tree) buildInto(mgr *command.Manager, onExec func(n *node, c *command.Context) error) {
 	var mk func(n *node) brigodier.Builder
 	apply := func(n *node, b interface {
 		NodeBuilder() brigodier.NodeBuilder
@@ -274,7 +283,6 @@ func (t *tree) build(onExec func(n *node, c *command.Context) error) *command.Ma
 	for _, r := range t.Roots {
 		mgr.Root.AddChild(mk(r).Build())
 	}
-	return &mgr
 }
 
 // ---- case ---------------------------------------------------------------------------------
@@ -475,7 +483,9 @@ func check(t *tree, cs *caseSpec, ob *observed) (vs []viol, class string) {
 		if ob.backend[0] == final {
 			return
 		}
-		if ob.backend[0] == cs.Line && final != cs.Line {
+		if ob.backend[0] != final && strings.TrimLeft(ob.backend[0], "/") == strings.TrimLeft(final, "/") {
+			add("command-leading-slashes-changed-"+fam, fmt.Sprintf("backend received %q, want %q: the number of leading slashes of the command differs", ob.backend[0], final))
+		} else if ob.backend[0] == cs.Line && final != cs.Line {
 			add("rewritten-command-reached-backend-with-original-text-"+fam, fmt.Sprintf("event rewrote %q to %q but the backend received the original", cs.Line, final))
 		} else {
 			add("command-text-altered-"+fam, fmt.Sprintf("backend received %q, want %q", ob.backend[0], final))
@@ -567,6 +577,7 @@ func TestC22(t *testing.T) {
 	r.Assume("one command is typed at a time; a sentinel command typed behind it and forwarded through the ordered chat queue marks quiescence (order itself is C21)")
 	r.Assume("what the backend receives is Gate's own encoding of each written packet, decoded by the independent ref/chatwire decoder")
 	r.Assume("the expected class comes from a reference walker over the generated tree that shares no code with brigodier")
+	r.Assume("e2e layer (e2e_test.go): live proxy.New + HandleConn over in-memory pipes; the tree is registered on Proxy.Command(), requirements are decided through PermissionsSetupEvent, the outcome through CommandExecuteEvent; real logins of 47..775 clients; command packets written by the harness's own encoder, the backend side read by ref/chatwire; only packet ids come from Gate's registry; offline-mode players, key authentication not enforced")
 
 	n := r.N(6000, 1200000)
 	perTree := 25
@@ -686,4 +697,6 @@ func TestC22(t *testing.T) {
 	r.Set("cases_by_event", byEvent)
 	r.Set("players_kicked", kicks)
 	r.Set("trees", nTrees)
+
+	runE2E(r, r.N(150, 6000), 6, 6)
 }
